@@ -122,6 +122,14 @@ theorem read_getElem (m : Mem) (a n i : Nat) (h : i < (Mem.read m a n).length) :
       simp only [Mem.read, List.getElem_cons_succ]
       rw [ih]; congr 1; omega
 
+theorem read_congr (m₁ m₂ : Mem) (a n : Nat) (h : ∀ x, a ≤ x → x < a + n → m₁ x = m₂ x) :
+    Mem.read m₁ a n = Mem.read m₂ a n := by
+  induction n generalizing a with
+  | zero => rfl
+  | succ n ih =>
+    simp only [Mem.read]
+    rw [h a (Nat.le_refl _) (by omega), ih (a + 1) (fun x h1 h2 => h x (by omega) (by omega))]
+
 /-! ### the talker's message builder -/
 
 def canFields : List (String × Nat × FieldSpec) :=
